@@ -9,6 +9,8 @@ import Driver.BlockOps
 import Driver.ThreadsOps
 import Driver.TocOps
 import Driver.SerializerOps
+import Driver.CodecOps
+import Driver.ConfigOps
 import Driver.PipelineOps
 import Driver.AttrListOps
 import Driver.ExtractOps
@@ -19,6 +21,6 @@ import Driver.CodeOps
 
 namespace Driver
 
-def handlers : List Handler := [registryHandler, dispatchHandler, normalizeHandler, tablesHandler, blockHandler, threadsHandler, tocHandler, serializerHandler, codeHandler, pyHandler, inlineHandler, triggerHandler, extractEvHandler, attrListHandler, pipelineHandler]
+def handlers : List Handler := [registryHandler, dispatchHandler, normalizeHandler, tablesHandler, blockHandler, threadsHandler, tocHandler, serializerHandler, codeHandler, pyHandler, inlineHandler, triggerHandler, extractEvHandler, attrListHandler, pipelineHandler, configHandler, codecHandler]
 
 end Driver
